@@ -160,15 +160,13 @@ pub0_pipe_fini(void *arg)
 static int
 pub0_pipe_init(void *arg, nni_pipe *pipe, void *s)
 {
-	pub0_pipe *p    = arg;
-	pub0_sock *sock = s;
-	size_t     len;
+	pub0_pipe *p = arg;
 
-	nni_mtx_lock(&sock->mtx);
-	len = sock->sendbuf;
-	nni_mtx_unlock(&sock->mtx);
-
-	nni_lmq_init(&p->sendq, len);
+	// The transport may call us with its own lock held (and it takes
+	// that lock in its send path, which we call with the socket lock
+	// held), so the socket lock must not be taken here.  The queue
+	// gets its configured depth in pub0_pipe_start.
+	nni_lmq_init(&p->sendq, 2);
 	nni_aio_init(&p->aio_send, pub0_pipe_send_cb, p);
 	nni_aio_init(&p->aio_recv, pub0_pipe_recv_cb, p);
 
@@ -191,6 +189,8 @@ pub0_pipe_start(void *arg)
 		return (NNG_EPROTO);
 	}
 	nni_mtx_lock(&sock->mtx);
+	// (as at initialization: if this fails, the depth stays at 2)
+	(void) nni_lmq_resize(&p->sendq, sock->sendbuf);
 	nni_list_append(&sock->pipes, p);
 	nni_mtx_unlock(&sock->mtx);
 
